@@ -143,6 +143,9 @@ def _sizes(pdk, emod, params, kw):
     length, each must equal the given value, or - when not given - the PDK's own default table entry"""
     wn = next((n for n in ("w", "r_width", "c_width") if hasattr(params, n)), None)
     ln = next((n for n in ("l", "r_length", "c_length") if hasattr(params, n)), None)
+    if (wn is None or ln is None) and pdk == "gf180" and hasattr(params, "area") and hasattr(params, "pj"):
+        # (GF180's diode parameters are in SI units; Sky130 scales its own to microns: not modelled here)
+        return _area_pj(pdk, emod, params, kw)
     if wn is None or ln is None:
         return ""
     try:
@@ -160,6 +163,26 @@ def _sizes(pdk, emod, params, kw):
                 return f"{attr} = {getattr(params, attr)} although {given} was given"
         elif default is not None and got != _val(default[idx]):
             return f"{attr} = {getattr(params, attr)}, the PDK default for {emod.name} is {default[idx]}"
+    return ""
+
+
+def _area_pj(pdk, emod, params, kw):
+    """devices sized by area and junction perimeter: area = w * l and pj = 2w + 2l of the given sizes, each size defaulting
+    - independently - to the PDK's table entry"""
+    try:
+        pd = __import__(pdkmod(pdk).__name__ + ".primitives.prim_dicts", fromlist=["x"])
+    except ImportError:
+        return ""
+    default = None
+    for v in vars(pd).values():
+        if isinstance(v, dict) and emod.name in v and isinstance(v[emod.name], tuple) and len(v[emod.name]) == 2:
+            default = v[emod.name]
+    w = _val(kw["w"]) if kw.get("w") is not None else (_val(default[0]) if default else None)
+    l = _val(kw["l"]) if kw.get("l") is not None else (_val(default[1]) if default else None)
+    if w is None or l is None:
+        return ""
+    if _val(params.area) != w * l or _val(params.pj) != 2 * w + 2 * l:
+        return f"area = {params.area}, pj = {params.pj} for w = {w}, l = {l} (given {kw.get('w')}, {kw.get('l')})"
     return ""
 
 
